@@ -9,15 +9,16 @@ import (
 // bullet symbol per line, roots as # headings, blank / whitespace-only lines, LF or CRLF per line, final newline.
 // All per-line choices are cyclic sequences so that a Spelling is a small value that shrinks well.
 type Spelling struct {
-	Tab      bool   `json:"tab,omitempty"`
-	Unit     int    `json:"unit"`              // indent characters per level (>=1)
-	Bullets  string `json:"bullets,omitempty"` // cycled per item line; chars from "-*+" ("" = "-")
-	Heading  bool   `json:"heading,omitempty"` // roots written as # headings
-	Hashes   []int  `json:"hashes,omitempty"`  // cycled per root: number of '#' (1..3)
-	Blank    []int  `json:"blank,omitempty"`   // cycled per item line: index into BlankTable put before the line (0 none)
-	Trail    int    `json:"trail,omitempty"`   // index into BlankTable for one blank line at the end (0 none)
-	CRLF     []bool `json:"crlf,omitempty"`    // cycled per physical line
-	NoFinalN bool   `json:"noFinalNL,omitempty"`
+	Tab         bool   `json:"tab,omitempty"`
+	Unit        int    `json:"unit"`                  // indent characters per level (>=1)
+	Bullets     string `json:"bullets,omitempty"`     // cycled per item line; chars from "-*+" ("" = "-")
+	Heading     bool   `json:"heading,omitempty"`     // roots written as # headings
+	HeadingFrom int    `json:"headingFrom,omitempty"` // with Heading: the first HeadingFrom roots are still written as list items (the mixed notation: list roots first, heading roots after them)
+	Hashes      []int  `json:"hashes,omitempty"`      // cycled per root: number of '#' (1..3)
+	Blank       []int  `json:"blank,omitempty"`       // cycled per item line: index into BlankTable put before the line (0 none)
+	Trail       int    `json:"trail,omitempty"`       // index into BlankTable for one blank line at the end (0 none)
+	CRLF        []bool `json:"crlf,omitempty"`        // cycled per physical line
+	NoFinalN    bool   `json:"noFinalNL,omitempty"`
 }
 
 // BlankTable lists the blank-line spellings (index 0 = no blank line).
@@ -94,7 +95,7 @@ func SpellLines(f Forest, sp Spelling) []Line {
 			addBlank(sp.Blank[item%len(sp.Blank)])
 		}
 		l := Line{Name: n.Name, Gap: " ", Level: level, Root: root}
-		if sp.Heading && level == 1 {
+		if sp.Heading && level == 1 && root >= sp.HeadingFrom {
 			h := 1
 			if len(sp.Hashes) > 0 {
 				h = sp.Hashes[root%len(sp.Hashes)]
@@ -110,7 +111,7 @@ func SpellLines(f Forest, sp Spelling) []Line {
 			}
 			l.Bullet = string(b)
 			depth := level - 1
-			if sp.Heading {
+			if sp.Heading && root >= sp.HeadingFrom {
 				depth = level - 2
 			}
 			l.Indent = strings.Repeat(sp.indentChar(), depth*sp.unit())
